@@ -149,6 +149,76 @@ pub fn inject_word(r: &mut Rng, text: &mut String, what: &str) {
     }
 }
 
+/// Tokens with the structure of real documents. Random token soup almost never
+/// produces these conjunctions (a scheme followed by "://" and a hyphenated
+/// host, several hyphens in one word, a word ending in a hyphen, a list marker,
+/// a string-level emoji sequence, a tab inside an otherwise ASCII word ...).
+pub const REAL: &[&str] = &[
+    // markdown
+    "[text](https://example.com/a-b/c)", "[docs](https://docs.rs/textwrap/)", "`code`", "**bold**", "_emph_", "|", "1.", "2.", "12)", "10.", "(a)", "[ ]", "[x]", "##",
+    "![badge](https://img.shields.io/crates/v/textwrap.svg)",
+    // URLs, addresses, paths
+    "https://crates.io/", "https://docs.rs/", "http://my-site.example.org/a-b", "https://downloads.example-project.org/stable/my-app-installer-x86_64-linux.tar.gz",
+    "ssh://git@host:22/repo.git", "vscode-insiders://open", "file:///tmp/x", "user@example.com", "<https://example.org/>", "https://github.com/rust-lang/rust-by-example",
+    "/usr/local/bin", "C:\\Users\\me", "src/word_separators.rs:274:24", "~/.config/", "./a.out", "..",
+    // command lines, targets, operators
+    "--no-default-features", "--long-option=value", "-o", "->", "=>", "::", "x86_64-unknown-linux-gnu", "--frob-level=3", "-Wall", "-O2", "2>&1", "a&&b", "$(CC)",
+    // numbers, dates, versions
+    "0.16.2", "v1.2.3-rc.1", "2024-01-15", "1789-07-14", "12:30:45", "1,000.50", "100%", "10kg", "1e-9", "550e8400-e29b-41d4-a716-446655440000", "0xDEADBEEF",
+    "3f2c9a7be01d4c5566a8e9f0b1c2d3e4f5a6b7c8", "DE89", "3704", "0044", "#42",
+    // abbreviations and suspended hyphens
+    "e.g.", "i.e.", "U.S.A.", "etc.", "pre-", "post-processing", "two-", "three-line", "left-", "right-aligned", "state-of-the-art", "well-known",
+    // programming languages, markup
+    "C++", "C#", "F#", "g++", "<br>", "a&b", "Vec<Option<&str>>", "fn(&mut", "AbstractSingletonProxyFactoryBean", "TransactionAwareDataSource",
+    // French spaced punctuation, quotes
+    "Ça", "va", "?", "!", ";", "«", "»", "f(", "x", ")", "journée",
+    // emoji sequences and scripts whose string width is not the sum of the character widths
+    "\u{26a0}\u{fe0f}", "1\u{fe0f}\u{20e3}", "\u{1f44d}\u{1f3fd}", "\u{1f469}\u{200d}\u{1f4bb}", "\u{1f468}\u{200d}\u{1f469}\u{200d}\u{1f467}\u{200d}\u{1f466}",
+    "\u{1f1e9}\u{1f1f0}\u{1f1f8}\u{1f1ea}", "\u{2764}\u{fe0f}", "\u{2714}\u{fe0f}", "\u{2139}\u{fe0f}", "\u{1f3fd}", "\u{644}\u{627}", "\u{627}\u{644}\u{633}\u{644}\u{627}\u{645}",
+    "\u{5e9}\u{5dc}\u{5d5}\u{5dd}", "\u{928}\u{92e}\u{938}\u{94d}\u{924}\u{947}", "\u{e2a}\u{e27}\u{e31}\u{e2a}\u{e14}\u{e35}", "\u{1112}\u{1161}\u{11ab}", "re\u{301}sume\u{301}_final.pdf",
+    "こんにちは\u{3000}世界", "世界のみなさん\u{3000}",
+    // tabs and other controls inside otherwise plain ASCII words
+    "\tcargo", "name\tvalue\tunit", "key:\tvalue", "\t", "CC\tthe", "N\u{8}NA\u{8}A", "\u{c}", "Bye.\r",
+    // diff / log output
+    "+++", "---", "@@", "+added", "-removed", "warning:", "error[E0308]:", "[2024-01-15T12:30:45Z", "INFO]",
+];
+
+pub fn real_token(r: &mut Rng, styled: bool) -> String {
+    let w = *r.pick(REAL);
+    if styled {
+        // coloured / styled, the sequences glued to the word
+        return match r.below(4) {
+            0 => format!("\u{1b}[1m{}\u{1b}[0m", w),
+            1 => format!("\u{1b}[{}m{}\u{1b}[m", r.range(30, 37), w),
+            2 => format!("\u{1b}]8;;https://example.org/x\u{7}{}\u{1b}]8;;\u{7}", w),
+            _ => format!("\u{1b}[1;33m{}", w),
+        };
+    }
+    match r.below(8) {
+        // two real tokens glued (an option and its value, a marker and its word)
+        0 => format!("{}{}", w, r.pick(REAL)),
+        _ => w.to_string(),
+    }
+}
+
+pub fn repeat_token(r: &mut Rng) -> String {
+    let w = *r.pick(&["la", "ab", "x", "de", "ATG", "0000", "你", "\u{1f389}", "foo-bar", "é", "ff"]);
+    let n = match r.below(4) {
+        0 => r.range(2, 6),
+        1 => *r.pick(&[8usize, 9, 12, 16, 24, 32]),
+        _ => r.range(2, 40),
+    };
+    let sep = *r.pick(&[" ", " ", " ", "", "  "]);
+    let mut s = String::new();
+    for k in 0..n {
+        if k > 0 {
+            s.push_str(sep);
+        }
+        s.push_str(w);
+    }
+    s
+}
+
 pub const DIRTY: &[&str] = &[
     "\u{1b}", "\u{1b}[", "\u{1b}]", "\u{1b}X", "\u{1b}\u{1b}[0m", "\u{1b}]8;; http://x\u{7}", "\u{1b}[3 1m", "\u{1b}[31",
     "\u{1b}]0;t", "\u{1b}\\", "\u{1b} ", "\u{1b}\n", "\u{1b}你", "\u{1b}[\u{1b}[m", "\u{1b}]a\u{1b}b\u{7}", "\u{1b}[é",
@@ -249,6 +319,13 @@ pub enum Class {
     Prefix,
     /// words made of random scalar values from many Unicode blocks
     Scalars,
+    /// structured tokens as they occur in real documents (markdown, URLs, paths, options, dates, emoji
+    /// sequences, tab-separated fields ...), sometimes wrapped in colour codes
+    Real,
+    /// the same, wrapped in colour codes / hyperlinks that are glued to the word
+    RealStyled,
+    /// one short word repeated many times (very regular text)
+    Repeat,
 }
 
 /// Per-batch mix of token classes.
@@ -322,6 +399,9 @@ impl Mix {
             Class::Clean => clean_seq(r),
             Class::Dirty => r.pick(DIRTY).to_string(),
             Class::Scalars => random_scalar_word(r),
+            Class::Real => real_token(r, false),
+            Class::RealStyled => real_token(r, true),
+            Class::Repeat => repeat_token(r),
             Class::Prefix => {
                 let mut s = String::new();
                 for _ in 0..r.range(1, 3) {
@@ -347,6 +427,9 @@ impl Mix {
 }
 
 pub const ALL_CLASSES: &[Class] = &[
+    Class::Real,
+    Class::RealStyled,
+    Class::Repeat,
     Class::Ascii,
     Class::Wide,
     Class::Zero,
@@ -360,13 +443,13 @@ pub const ALL_CLASSES: &[Class] = &[
 ];
 
 pub const CLEAN_CLASSES: &[Class] =
-    &[Class::Ascii, Class::Wide, Class::Zero, Class::Punct, Class::Space, Class::Para, Class::Clean, Class::Prefix, Class::Scalars];
+    &[Class::Ascii, Class::Wide, Class::Zero, Class::Punct, Class::Space, Class::Para, Class::Clean, Class::Prefix, Class::Scalars, Class::Real, Class::RealStyled, Class::Repeat];
 
 pub const CLEAN_LINE_CLASSES: &[Class] =
-    &[Class::Ascii, Class::Wide, Class::Zero, Class::Punct, Class::Space, Class::Clean, Class::Prefix, Class::Scalars];
+    &[Class::Ascii, Class::Wide, Class::Zero, Class::Punct, Class::Space, Class::Clean, Class::Prefix, Class::Scalars, Class::Real, Class::RealStyled, Class::Repeat];
 
 pub const LINE_CLASSES: &[Class] =
-    &[Class::Ascii, Class::Wide, Class::Zero, Class::Punct, Class::Space, Class::Clean, Class::Dirty, Class::Prefix, Class::Scalars];
+    &[Class::Ascii, Class::Wide, Class::Zero, Class::Punct, Class::Space, Class::Clean, Class::Dirty, Class::Prefix, Class::Scalars, Class::Real, Class::RealStyled, Class::Repeat];
 
 /// Token count distribution: mostly short, sometimes long.
 pub fn ntok(r: &mut Rng) -> usize {
